@@ -10,7 +10,11 @@ construction from atomic, prefixed, alias and compound strings, array creation, 
   (5) the outcome class of every edit call against the same call on a fresh registry with the pre-edit contents,
   (7) the same ufunc-level operation applied, only after the last edit and in a chosen order, to arrays of one spelling built
       before / between / after the edits ("generations"): each result must be its operand's values x the scale the spelling had
-      when that operand was built (catalogue: vf/gen/c12_pairs.py).
+      when that operand was built (catalogue: vf/gen/c12_pairs.py),
+  (8) registry-bound objects other than Unit / array: a UnitSystem(..., registry=reg) spelled with reg's own symbols, used through
+      every door (system[dim], in_base / convert_to_base / get_base_equivalent by object, name, 'code', dataset holder, registry
+      default) for some dimensions before / between / after edits; every use judged by the sequential model, the final grid also
+      against a new system on the used registry, a fresh registry and a cold process (vf/monitors/c12_systems.py).
 """
 import itertools
 from fractions import Fraction as Fr
@@ -19,6 +23,7 @@ from vf import core
 from vf.ref import dims, defs, names, uexpr, regmodel
 from vf.monitors.c12_coldserver import ColdServer
 from vf.gen import c12_pairs as gp
+from vf.monitors import c12_systems as gs
 
 RULE = ("one evaluation = one observed outcome (scale+dimension+offset of a Unit built from a string, SI values+unit of an array "
         "creation/conversion/arithmetic result, snapshot of a retained object, or outcome class of an edit call) compared with the "
@@ -46,7 +51,18 @@ RULE = ("one evaluation = one observed outcome (scale+dimension+offset of a Unit
         "second handle, arrays built through a second handle, edit of a companion symbol (control), 2-3 successive edits; distinct cell "
         "= (script, operation, pre-/post-edit operand, evaluated first/later, spelling class, state, decisive or control). The same "
         "judgement is applied at the end of every random / handle history (and every 'deep' exhaustive one) to up to two retained "
-        "arrays and a new array of the same spelling (5 one-operand + 2 two-operand operations, rotating; order alternating)")
+        "arrays and a new array of the same spelling (5 one-operand + 2 two-operand operations, rotating; order alternating). "
+        "Unit-system part: one evaluation = ONE use of ONE door (13: system[dim object], system['name'], in_base by system object / "
+        "name / 'code' / dataset-like holder / registry default, convert_to_base, scalar in_base, get_base_equivalent by object / name, "
+        "in_units(system[dim]), in_base of data already in the system's unit) for ONE dimension (7: three base, three derived, one control "
+        "spelled with a never-edited default symbol) of a UnitSystem bound to the edited registry (5 spellings: atomic / SI-prefixed / "
+        "Unit-object arguments / quantity argument with a coefficient / half default symbols; derived dimensions implicit or assigned by "
+        "system[dim] = string), at any point of a history base - system - [uses] - edit step - [uses] - ... - full grid (18, thorough 24, "
+        "edit scripts x 1-2 (thorough 2-3) of 5 choices of the part of the grid used before and between the edits; random histories with up to three systems "
+        "on one registry, assignments and edits through a second handle), judged by the model: the unit the system has for the dimension "
+        "is its creation-time spelling read against the CURRENT contents; the final grid is also compared with a new system on the used "
+        "registry, with a fresh registry and with a cold process; distinct cell = (oracle, kind of the last edit touching the spelling, "
+        "door, dimension class, first use / re-use after the answer changed / re-use with the same answer, returned or refused, spelling)")
 ASSUMPTIONS = (
     "trusted base: ref/regmodel.py (dict model), ref/uexpr.py (expression evaluator), ref/defs.py values of the exactly defined "
     "symbols used as companions (m, s, g, kg, cm, km, K, rad, A, cd; pc within its 1e-7 class) and ref/names.py spellings",
@@ -99,6 +115,17 @@ ASSUMPTIONS = (
     "generations monitor: a comparison between a dimensionless array and an array of another dimension (possible only after an edit "
     "that changed the spelling's dimension) is answered rather than refused by unyt with or without any history; whether it should "
     "be refused is not part of this statement - counted as not judged",
+    "unit-system monitor: a UnitSystem created with registry=reg is bound to 'that registry'; the unit it has for a dimension is the "
+    "spelling it was created with (or last assigned through system[dim] = string), so every use after an edit must give the scale and "
+    "dimension the CURRENT contents give that spelling ('exactly as if built against a fresh registry with those contents'), and must "
+    "raise when the spelling is now unknown; when an edit gave the spelling another dimension, system[dim] / get_base_equivalent are "
+    "still judged (they construct a unit), a conversion of data of the old dimension may raise, and data 'already in the system's "
+    "unit' are not judged",
+    "unit-system monitor: the 'code' and dataset-holder doors look the system up under the registry's current content id; the harness "
+    "registers the same system object under that id right before such a call (what a dataset loader does once); the registry-default "
+    "door sets registry.unit_system = system around the call; system[dim] = string is driven for derived dimensions only",
+    "unit-system monitor: whether UnitSystem(...) must accept or refuse its arguments is judged only as 'every base spelling is known "
+    "and has the base dimension of its slot under the current contents <=> accepted' (what the constructor documents)",
 )
 MIN_EVALS = 5000
 TIMEOUT = 1500
@@ -354,6 +381,8 @@ def cold_handler(req):
     import unyt
     if req.get("what") == "ping":
         return {"pong": True, "cache": len(unyt.unit_registry.default_unit_registry._unit_object_cache)}
+    if req.get("what") == "systems":
+        return gs.cold(req)
     m = regmodel.RegModel.from_plain(req["model"])
     reg = regmodel.build_registry(unyt, m)
     out, _ = observe(unyt, reg, req["uprobes"], req["aspecs"], rnames=req.get("rnames", ()))
@@ -1445,6 +1474,12 @@ def batches(tier, seed):
     for k in range(0, len(labels), per):
         b.append((f"generations/{k}", {"mode": "generations", "labels": labels[k:k + per], "tier": tier,
                                        "hows": list(SHARED_HOWS[:7]) if tier == "thorough" else ["copy.copy(reg)", "q.in_mks"]}))
+    nsys, per = len(gs.enumerated(tier)), (20 if tier == "quick" else 24)
+    for k in range(0, nsys, per):
+        b.append((f"systems/{k}", {"mode": "systems", "lo": k, "hi": min(nsys, k + per), "tier": tier, "cold_stride": 6}))
+    nrs, per = (16, 8) if tier == "quick" else (40, 8)
+    for k in range(0, nrs, per):
+        b.append((f"systems-rand/{k}", {"mode": "systems-rand", "ids": list(range(k, k + per)), "seed": seed, "tier": tier}))
     b.append(("shadow", {"mode": "shadow", "tier": tier}))
     b.append(("reuse", {"mode": "reuse", "tier": tier}))
     b.append(("coldcheck", {"mode": "coldcheck", "tier": tier}))
@@ -1597,6 +1632,11 @@ def run_steps(unyt, rec, steps, syms, tier, srv, cold_final, idcheck_always=Fals
         rec.count("shared_table_histories")
 
 
+def _SELF():
+    import sys
+    return sys.modules[__name__]
+
+
 def worker(batch, rec):
     import unyt
     bid, p = batch
@@ -1641,6 +1681,10 @@ def worker(batch, rec):
             rec.sample({"handles": p["how"], "history": steps})
         elif mode == "generations":
             run_generations(unyt, rec, tier, p["labels"], p["hows"])
+        elif mode == "systems":
+            gs.run_enumerated(_SELF(), unyt, rec, tier, p["lo"], p["hi"], srv, p["cold_stride"])
+        elif mode == "systems-rand":
+            gs.run_random(_SELF(), unyt, rec, tier, p["ids"], p["seed"], srv, core.rng)
         elif mode == "shadow":
             run_shadow(unyt, rec, tier)
         elif mode == "reuse":
@@ -1855,6 +1899,7 @@ def extra(tier, seed, results):
                 "evals_generations", "evals_generations_cross_decisive", "evals_generations_bool_decisive", "evals_generations_history_cases")
     deciding += tuple(f"evals_generations_decisive:{w}:{p_}" for w, p_ in GEN_WHO_POS)
     deciding += tuple("generation_scripts:" + l for l in (gp.SCRIPTS_THOROUGH if tier == "thorough" else gp.SCRIPTS))
+    deciding += tuple(gs.gate_counters(tier))          # registry-bound unit systems
     zero = [k for k in deciding if not c.get(k)]
     zero += ["edits_shared_table:" + k for k in EDIT_KINDS if not c.get("edits_shared_table:" + k)]
     zero += ["shared_handles:" + h for h in SHARED_HOWS if not c.get("shared_handles:" + h)]
@@ -1878,6 +1923,7 @@ def extra(tier, seed, results):
         | {f"independent|{h}|{p}" for h in INDEP_HOWS for p in PCLASSES[:5]} \
         | {f"shadow|{h}|{p}" for h in ("add", "define_unit") for p in ("atomic", "compound")} \
         | {f"generations|{o}|{w}|{p_}" for o in gp.UNARY if o not in ("x/x.units", "x/x") for w, p_ in GEN_WHO_POS} \
-        | {f"generations|{o}|mixed" for o in gp.CROSS}
+        | {f"generations|{o}|mixed" for o in gp.CROSS} \
+        | gs.catalogue()
     return {"sub_monitor_counters": {k: c.get(k, 0) for k in sorted(c)}, "catalogue_size": len(cat),
             "unreached": sorted(cat - reached)}
